@@ -156,8 +156,8 @@ fn run_bitflips(ctx: &Ctx) -> CheckResult {
 }
 
 /// The bound is attained, and equals the formula of the property's mechanism.
-pub fn case_witness(va: &dyn VariantApi, fill: u8, st: &CaseStats) -> Result<(), String> {
-    let v = va.v();
+/// An extremal pair: every part at its largest distance (256 of them per variant).
+pub fn witness_pair(v: vmodel::Variant, fill: u8) -> (Vec<u8>, Vec<u8>) {
     let n = v.size();
     // body x vs !x where every dibit pair is (0,3) or (3,0): fill with dibits in {0,3}
     let spread = |bits: u8| -> u8 {
@@ -184,6 +184,12 @@ pub fn case_witness(va: &dyn VariantApi, fill: u8, st: &CaseStats) -> Result<(),
     let q = fill & 7;
     a[v.ck + 1] = q | (q << 4);
     b[v.ck + 1] = (q + 8) | ((q + 8) << 4);
+    (a, b)
+}
+
+pub fn case_witness(va: &dyn VariantApi, fill: u8, st: &CaseStats) -> Result<(), String> {
+    let v = va.v();
+    let (a, b) = witness_pair(v, fill);
     let (ha, hb) = (mk(va, &a)?, mk(va, &b)?);
     for no_length in [false, true] {
         st.eval();
